@@ -56,7 +56,8 @@ CFG = {
                   "with the bump moved into escape() a SUB does not outdate it (statement-grained witnesses = the replays found on the changed code). "
                   "Fair-run termination at statement grain (Props/C08FineFair): for every finite input, every expiry policy and any capacity >= 1 the fair scheduler over the bounded-channel statement system ends within an explicit bound with run() returned, "
                   "the channel closed and drained, every callback returned, received = pre ++ [EOF], nothing lost; for the parser's table every scripted input is read and the received stream is the Spec's; after Close() and the return of the pending read "
-                  "(any reachable state) the run ends within an explicit bound without another read, and in no schedule is the read entered again. "
+                  "(any reachable state) the run ends within an explicit bound without another read, and in no schedule is the read entered again; with Close() issued at any point inside the fair run it still ends within the same bound, "
+                  "EOF last, reads taken a prefix of the script (fchan_fair_run_terminates_with_close). "
                   "Parameter pools driven by the automaton (Props/C08DriveParams): for any table, runes, Get answers (stale lengths), growth and Finish-Puts interleaved anywhere (also inside a dispatch) the composite is a run of the pool model, "
                   "every delivered unfinished CSI reads its parameters as delivered at every point, each hand-over reads decodeParams of the collected bytes, and the expansion equals a walk of the regenerated csiDispatch body. "
                   "Real time is abstracted to the order of timer and read events.",
